@@ -12,6 +12,7 @@ import (
 	"bufio"
 	"encoding/json"
 	"fmt"
+	"hash/fnv"
 	"os"
 	"path/filepath"
 	"sort"
@@ -31,7 +32,12 @@ type G struct {
 	fs     []*os.File
 	cnt    int
 	Counts map[string]int
+	seen   map[uint64]struct{} // hashes of the recorded events (distinctness is measured, not assumed)
+	nontrivial int             // distinct events that are non-trivial by the family's rule
 }
+
+// nonTrivialer is implemented by event types with a notion of a trivial case.
+type nonTrivialer interface{ NonTrivial() bool }
 
 func (g *G) thorough() bool { return g.Tier == "thorough" }
 
@@ -56,6 +62,14 @@ func (g *G) emit(ev interface{}, class string) {
 	b, err := json.Marshal(ev)
 	if err != nil {
 		panic(err)
+	}
+	h := fnv.New64a()
+	h.Write(b)
+	if _, dup := g.seen[h.Sum64()]; !dup {
+		g.seen[h.Sum64()] = struct{}{}
+		if nt, ok := ev.(nonTrivialer); !ok || nt.NonTrivial() {
+			g.nontrivial++
+		}
 	}
 	w := g.ws[g.cnt%len(g.ws)]
 	w.Write(b)
@@ -91,7 +105,7 @@ func main() {
 		}
 		seed, _ := strconv.ParseInt(os.Args[4], 10, 64)
 		ns, _ := strconv.Atoi(os.Args[6])
-		g := &G{Tier: os.Args[3], Seed: seed, R: NewRand(seed), Counts: map[string]int{}}
+		g := &G{Tier: os.Args[3], Seed: seed, R: NewRand(seed), Counts: map[string]int{}, seen: map[uint64]struct{}{}}
 		for i := 0; i < ns; i++ {
 			dir := filepath.Join(os.Args[5], fmt.Sprintf("shard%02d", i))
 			if err := os.MkdirAll(dir, 0o755); err != nil {
@@ -111,7 +125,8 @@ func main() {
 			g.ws[i].Flush()
 			g.fs[i].Close()
 		}
-		out, _ := json.Marshal(map[string]interface{}{"driver": os.Args[2], "events": g.cnt, "classes": g.Counts})
+		out, _ := json.Marshal(map[string]interface{}{"driver": os.Args[2], "events": g.cnt, "classes": g.Counts,
+			"distinct": len(g.seen), "distinct_nontrivial": g.nontrivial})
 		fmt.Println(string(out))
 	case "exec":
 		execMain()
